@@ -47,6 +47,12 @@ Definition equals_true (v : jv) : bool :=
   | _ => false
   end.
 
+(* VariantData::setFloat(double): stored as a float when the value survives the narrowing *)
+Definition jv_of_double (use_dbl : bool) (f : spec_float) : jv :=
+  let g := fconv F32 f in
+  if use_dbl then (if f_eq f (fconv F64 g) then JFloat g else JDouble f)
+  else JFloat g.
+
 Definition is_arr (v : jv) := match v with JArr _ => true | _ => false end.
 Definition is_obj (v : jv) := match v with JObj _ => true | _ => false end.
 
